@@ -203,7 +203,17 @@ def run_shard(spec, seed):
     benign = st.tuples(values.plain_values(max_leaves=5), st.sampled_from(range(6))).map(
         lambda t: pickle.dumps(t[0], protocol=t[1])
     )
-    part = st.one_of(benign, st.sampled_from(FLAGGED), st.sampled_from(FLAGGED))
+    # several harmless calls of different severities in one pickle, in any order, each value
+    # popped: findings of one analysis with different severities, severity must be their max
+    calls = st.lists(
+        st.sampled_from([
+            b"cverif_sink\nsink\n(S't'\ntR0", b"cos\ngetpid\n)R0", b"cbuiltins\neval\n(S'1+1'\ntR0",
+            b"ccollections\nOrderedDict\n)R0", b"cbuiltins\nlen\n(S'ab'\ntR0", b"cfoo.bar\nBaz\n0",
+            b"cbuiltins\ncompile\n0", b"cnumpy\nzeros\n0", b"cposix\ngetpid\n0",
+        ]),
+        min_size=1, max_size=5,
+    ).map(lambda xs: b"".join(xs) + b"N.")
+    part = st.one_of(benign, st.sampled_from(FLAGGED), calls, calls)
     strat = st.tuples(st.lists(part, min_size=1, max_size=5), st.booleans(), st.booleans())
     with Scratch("c10") as scratch:
 
